@@ -44,6 +44,10 @@ class Probe:
             return self.fn(*args, **kwargs)
         if m == 'nested':
             return self.arg(self, args, nth)
+        if m == 'simdict':
+            d = SimDict()
+            d._k, d._sid = k, f'f{self.pid}_{nth}'
+            return d
         raise AssertionError(m)
 
 
